@@ -361,6 +361,21 @@ def _multitask(ck, repo, nf):
         # the task is identified by its index or, equivalently, by its member buffer
         if marked in (SEL, f"self.buffers[{SEL}]"):
             okm = on_every_path_once(cfg, [marks[0][0].id])
+            if not okm:
+                # `if x not in s: s.add(x)` is the unconditional add: the only way around the add is the arm on which x is a member already
+                deps = cfg.control_deps(marks[0][0].id)
+                member_guard = []
+                for b_, lab_ in deps:
+                    t_ = getattr(cfg.nodes[b_].ast, "test", None)
+                    neg_ = False
+                    while isinstance(t_, ast.UnaryOp) and isinstance(t_.op, ast.Not):
+                        t_, neg_ = t_.operand, not neg_
+                    if isinstance(t_, ast.Compare) and len(t_.ops) == 1 and isinstance(t_.ops[0], (ast.In, ast.NotIn)) and dotted(t_.comparators[0]) == "self.active_buffers" \
+                            and nf.poly(t_.left, Scope(cfg, mi, {}, cq), b_).canon() == marked and ((isinstance(t_.ops[0], ast.NotIn) != neg_) == lab_):
+                        member_guard.append(b_)
+                if deps and len(member_guard) == len(deps):
+                    # every path from the entry reaches the membership test exactly once
+                    okm = on_every_path_once(cfg, [member_guard[-1]])
         elif "selected_task" in marked:
             raise AnalysisError(f"{cq}.add_sample: the active set receives `{marked[:60]}` (unrecognised form)")
     ck.ob("R5-task-routing", f"{cq}.add_sample", "marks-selected-task-active", okm, "; ".join(short(c, 60) for _, c in marks), "" if okm else "exactly the task that received the transition becomes active (anything else lets sample_batch draw a task without data, or never draw one that has data)", loc(mi, fn))
